@@ -56,15 +56,19 @@ def _run_rs(g: list, c: list, p: list) -> tuple:
         return ('reject', e.site, None)
     except RecursionError:
         return ('reject', 'recursion', None)
-    # final state of the three phases (verify keeps it local)
+    # final state of the three phases (verify keeps it local); if verify does something else between
+    # the phases than clearing the stack, this reconstruction can fail: then only the verdict is compared
     claims: list = []
     memory: list = []
     stack: list = []
-    m.execute_instructions(list(g), stack, memory, claims, m.ExecutionPhase__Gamma)
-    del stack[:]
-    m.execute_instructions(list(c), stack, memory, claims, m.ExecutionPhase__Claim)
-    del stack[:]
-    m.execute_instructions(list(p), stack, memory, claims, m.ExecutionPhase__Proof)
+    try:
+        m.execute_instructions(list(g), stack, memory, claims, m.ExecutionPhase__Gamma)
+        del stack[:]
+        m.execute_instructions(list(c), stack, memory, claims, m.ExecutionPhase__Claim)
+        del stack[:]
+        m.execute_instructions(list(p), stack, memory, claims, m.ExecutionPhase__Proof)
+    except Panic:
+        return ('accept', 'state-not-reconstructible', None)
     return ('accept', '', ([_term(x) for x in stack], [_term(x) for x in memory], [rsbridge.from_rs(x, symname={}) for x in claims]))
 
 
@@ -112,6 +116,7 @@ def _compare(ctx: Any, g: list, c: list, p: list, twin: bool, what: str) -> None
             raise symx.HarnessError(f'transpiled checker says {rs[0]}, real binary says {real}')
     ctx.check(rs[0] == doc[0], f'C05.{what}.verdict[checker={rs[0]}:{rs[1]}|document={doc[0]}:{doc[1]}]', lambda: f'gamma={g!r} claim={c!r} proof={p!r}')
     if rs[0] == 'accept':
+        ctx.check(rs[2] is not None, f'C05.{what}.accepts-but-phases-do-not-replay', lambda: f'gamma={g!r} claim={c!r} proof={p!r}: verify accepts, executing the three phases with a cleared stack panics')
         ctx.check(_same_state(rs[2], doc[2]), f'C05.{what}.final-state', lambda: f'gamma={g!r} claim={c!r} proof={p!r}: checker {rs[2]!r} document {doc[2]!r}')
 
 
@@ -140,6 +145,7 @@ def _programs() -> list[tuple]:
         )
     )
     out.append(([O_['SVar'], 0, O_['Mu'], 0, O_['EVar'], 2, O_['Exists'], 2, O_['Implies'], O_['Publish']], [O_['Symbol'], 0, O_['Symbol'], 1, O_['App'], O_['Publish']], [O_['Symbol'], 0]))
+    out.append(([O_['MetaVar'], 0, 0, 0, 1, 3, 0, 1, 5], [O_['MetaVar'], 1, 1, 2, 0, 0, 0, 0], [O_['CleanMetaVar'], 1, O_['MetaVar'], 0, 0, 1, 4, 0, 0, 2, 6, 7]))
     out.append(([], [], [O_['EVar'], 1, O_['Quantifier'], O_['Instantiate'], 1, 0, O_['Prop1'], O_['Generalization'], 3]))
     return out
 
